@@ -232,6 +232,19 @@ def runKnnq : RM String := do
   let w := match r.1 with | none => "0 0" | some x => s!"{lab.getD x 0} {clu.getD x 0}"
   return s!"{" ".intercalate (vs.map fun s => toString (cost.getD s.2 0))} | {w}"
 
+/-- `ncut n k nclusters {adj}*n nplat[n] clu[n] distbits[n*n]` -/
+def runNcut : RM String := do
+  let n ← nextN
+  let k ← nextN
+  let nc ← nextN
+  let adj ← readLists n
+  let np ← nextNs n
+  let clu ← nextNs n
+  let mut dm : Array Float := #[]
+  for _ in [0:n*n] do dm := dm.push (← rdF)
+  let v := normalizedCutG (0.0 : Float) 1.0 (fun i j => dm.getD (i * n + j) 0.0) adj np k (fun i => clu.getD i 0) n nc
+  return fbits v
+
 def runSelMax : RM String := do
   let start ← nextI
   let n ← nextN
@@ -404,6 +417,7 @@ def dispatch (line : String) : String :=
     | "elim" => run runElim
     | "cluster" => run runCluster
     | "knnq" => run runKnnq
+    | "ncut" => run runNcut
     | "selmax" => run runSelMax
     | "selcut" => run runSelCut
     | "lawfit" => run runLawFit
